@@ -2,7 +2,8 @@
 (* Trace validation for C43. One ndjson record per walk replayed on the REAL hls.Server
    (real stream.Stream behind it; the path manager's decisions come from the real auth.Manager):
      walk, cdnConf, events: << e >> with
-       [op |-> "open",    path, cred, ip, cdn (CDN secret sent?), res ("ok" | "refused" | "notfound" | "other"), sid]
+       [op |-> "open",    path, cred, ip, bearer ("" or the Bearer form sent instead of credentials),
+                          res ("ok" | "refused" | "notfound" | "other"), sid (0: no session secret came back)]
        [op |-> "req",     kind, path, sid, place, ip, auth, status, served]
        [op |-> "kick",    sid]   [op |-> "expire", sid]   [op |-> "kickcdn", path]
        [op |-> "noexpire", sid]  (the aged session was still there after two cleanup periods)
@@ -31,14 +32,18 @@ ServedL1(st, cdnConf, e) ==
 
 Step(st, cdnConf, e, k) ==
     CASE e.op = "open" ->
-           IF e.cdn /\ cdnConf
+           IF e.bearer = "cdn" /\ cdnConf
            THEN [st EXCEPT !.cdn = IF e.res = "ok" /\ e.path \in Paths THEN [st.cdn EXCEPT ![e.path] = TRUE] ELSE st.cdn,
                            !.drift = IF (e.res = "ok") = (e.path \in Paths) THEN st.drift ELSE Append(st.drift, k)]
-           ELSE LET adm == Admit(e.path, IF e.cdn THEN "none" ELSE e.cred, e.ip) IN
-                [st EXCEPT !.ss = IF e.res = "ok"
+           ELSE \* credentials, or a Bearer value that is not the configured CDN secret (an anonymous client)
+                LET adm == Admit(e.path, IF e.bearer # "" THEN "none" ELSE e.cred, e.ip) IN
+                [st EXCEPT !.ss = IF e.res = "ok" /\ e.sid > 0
                                   THEN Append(st.ss, [path |-> e.path, ip |-> e.ip, adm |-> adm, alive |-> TRUE])
                                   ELSE st.ss,
-                           !.drift = IF (e.res = "ok") = (adm /\ e.path \in Paths) THEN st.drift ELSE Append(st.drift, k)]
+                           \* a playlist without a session secret: the code opened its CDN route (layer 1 follows it)
+                           !.cdn = IF e.res = "ok" /\ e.sid = 0 /\ e.path \in Paths THEN [st.cdn EXCEPT ![e.path] = TRUE] ELSE st.cdn,
+                           !.drift = IF (e.res = "ok" /\ e.sid > 0) = (adm /\ e.path \in Paths) /\ ~(e.res = "ok" /\ e.sid = 0)
+                                     THEN st.drift ELSE Append(st.drift, k)]
       [] e.op \in {"kick", "expire"} ->
            [st EXCEPT !.ss = [st.ss EXCEPT ![e.sid].alive = FALSE]]
       [] e.op = "noexpire" -> [st EXCEPT !.drift = Append(st.drift, k)]   \* the idle session was not removed
